@@ -9,6 +9,7 @@ import importlib
 import json
 import multiprocessing as mp
 import os
+import re
 import subprocess
 import sys
 import time
@@ -127,18 +128,22 @@ def run_check(pid: str, tier: str, seed: int) -> int:
     # ----- adjudicate violations --------------------------------------------------------
     kf = load_known_findings()
     known = {}
+    known_rx = []
     for f in kf.get("findings", []):
         if f["property"] == pid:
-            for c in f["classes"]:
+            for c in f.get("classes", []):
                 known[c] = f
+            for rx in f.get("class_regex", []):
+                known_rx.append((re.compile(rx), f))
     by_class: dict = {}
     for v in total.get("violations", []):
         by_class.setdefault(v["class"], []).append(v)
     matched = {}
     new_classes = {}
     for c, vs in by_class.items():
-        if c in known:
-            matched.setdefault(known[c]["id"], [known[c], 0])[1] += sum(x.get("count", 1) for x in vs)
+        f = known.get(c) or next((f for rx, f in known_rx if rx.fullmatch(c)), None)
+        if f is not None:
+            matched.setdefault(f["id"], [f, 0])[1] += sum(x.get("count", 1) for x in vs)
         else:
             new_classes[c] = vs
     exit_code = 0
